@@ -24,7 +24,8 @@ theorem fully_recognised : extractErrors = [] := by decide
 
 /-- text.SoftwrapScanner.Scan and richtext.SoftwrapScanner.Scan are the same algorithm: entry guard,
 statements before the loop, accumulator types, `width`, the sums, the definition of `trSpace`, the
-chain of guards of the loop (without text.go's `s.state = state`), and the long-word branch are
+chain of guards of the loop and the long-word branch (without text.go's assignments to `s.state`,
+pinned in `facts_state_reset_on_split`) are
 literally equal after normalisation.  This is why the model has one `scanLoop` for both. -/
 theorem scanners_agree :
     textEntry = richEntry ∧ textEntryActs = richEntryActs ∧ textInit = richInit ∧
@@ -37,7 +38,7 @@ theorem scanners_agree :
   and_intros <;> decide
 
 /-- Entry of `Scan`.  Model (`scan`):
-`if rest.isEmpty || width == 0 then .stop else scanLoop o width rest.length rest st [] 0`
+`if rest.isEmpty || width == 0 then .stop else scanLoop o ini width rest.length rest st [] 0`
 — the guard `len(s.rest) == 0 || s.width == 0` returns false; then the token is cleared (`[]`),
 `width := int(s.width)` and `w` starts at 0 (`var w int`). -/
 theorem facts_entry :
@@ -88,7 +89,7 @@ else if br then .line rest' r.2.2 (token ++ stripBreak seg)             -- steps
 else
   let token := token ++ word; let w := w + wordLen                      -- steps 4, 5
   if w + spaceLen > width then .line rest' r.2.2 token                  -- step 6
-  else scanLoop o width fuel rest' r.2.2 (token ++ trSpace) (w + spaceLen)  -- steps 7, 8, next iteration
+  else scanLoop o ini width fuel rest' r.2.2 (token ++ trSpace) (w + spaceLen)  -- steps 7, 8, next iteration
 ``` -/
 theorem facts_loop_guards :
     textLoop = [
@@ -111,10 +112,10 @@ of seg / word / trSpace were appended to the token, whether `s.rest = rest` was 
 oracle, width, text, state, token and `w`. -/
 theorem facts_loop_meaning :
     parseSteps textLoop = some loopChain ∧ parseSteps richLoop = some loopChain ∧
-    ∀ {σ : Type} (o : σ → List Cell → Nat × Bool × σ) (width fuel : Nat) (rest : List Cell) (st : σ)
+    ∀ {σ : Type} (o : σ → List Cell → Nat × Bool × σ) (ini : σ) (width fuel : Nat) (rest : List Cell) (st : σ)
       (token : List Cell) (w : Nat),
-      scanLoop o width (fuel + 1) rest st token w = replayLoop o width fuel rest st token w :=
-  ⟨by decide, by decide, fun o width fuel rest st token w => scanLoop_eq_replay o width fuel rest st token w⟩
+      scanLoop o ini width (fuel + 1) rest st token w = replayLoop o ini width fuel rest st token w :=
+  ⟨by decide, by decide, fun o ini width fuel rest st token w => scanLoop_eq_replay o ini width fuel rest st token w⟩
 
 /-- Executing the extracted chain takes exactly the branches of `scanLoop` (`loopOutcome` is the
 `if` chain of the model over `w`, `wordLen`, `spaceLen`, `width`, `br`). -/
@@ -131,7 +132,7 @@ example : loopOutcome ⟨2, 7, 0, 6, 0, 1⟩ false = ⟨2, [], some .long⟩ := 
 /-- The long-word branch (F44/F45 fixes included).  Model (`scanLoop`, `splitLong`):
 ```
 let sp := splitLong width (!token.isEmpty) w word
-.line (sp.2 ++ trSpace ++ rest') st (token ++ sp.1)       -- rest = chars left ++ trSpace ++ rest; return true
+.line (sp.2 ++ trSpace ++ rest') ini (token ++ sp.1)      -- rest = chars left ++ trSpace ++ rest; (text.go: s.state = -1;) return true
 
 splitLong: let w := if ne && w + c.w > width then width else w   -- len(s.token) > 0 && w+char.Width > width ⇒ w = width
            if w ≥ width then (r.1, c :: r.2)                      -- w >= width ⇒ append to rest; continue
@@ -176,13 +177,14 @@ theorem facts_sums_int :
     textConversions = [] ∧ richConversions = [] := by
   and_intros <;> decide
 
-/-- text.go assigns `s.state = state` only right after `s.rest = rest` (step 3 of `textLoopFull`,
-after the long-word branch and the does-not-fit return), and nowhere else — in particular not in the
-long-word branch; richtext has no state.  Model (`scanLoop`): the long-word and does-not-fit branches
-return the *old* state `st`, every other exit `r.2.2`:
-`.line (sp.2 ++ trSpace ++ rest') st …`, `.line rest st token`, `.line rest' r.2.2 …`. -/
-theorem facts_state_kept_on_split :
-    textStateAssigns = [("loop:3", "R.state=state")] ∧ richStateAssigns = [] ∧
+/-- The uniseg state of text.go (`s.state`, an `int`; richtext has none) is assigned in exactly two
+places: `s.state = state` right after `s.rest = rest` (step 3 of `textLoopFull`, after the long-word
+branch and the does-not-fit return), and `s.state = -1` in the long-word branch (F116 fix: after a
+split `rest` no longer starts where the old state belongs).  Model (`scanLoop`, `ini` = -1):
+`.line (sp.2 ++ trSpace ++ rest') ini …` (long word), `.line rest st token` (does not fit: the *old*
+state, nothing consumed), `.line rest' r.2.2 …` (every other exit). -/
+theorem facts_state_reset_on_split :
+    textStateAssigns = [("long", "R.state=-1"), ("loop:3", "R.state=state")] ∧ richStateAssigns = [] ∧
     textLoopFull.take 4 = [
       (("", [("wordLen", ">", "width")]), ["LONG"]),
       (("", [("(w+wordLen)", ">", "width")]), ["return true"]),
